@@ -24,6 +24,8 @@ pub mod oracle;
 #[cfg(not(kani))]
 pub mod registry;
 
+pub mod c01_history;
+pub mod c02_queries;
 pub mod c04_bfs;
 pub mod c06_dfs;
 pub mod c18_distance_matrix;
